@@ -520,7 +520,7 @@ func generateOverlay(pk *packages.Package, fset *token.FileSet, cf *ContractFile
 	return []byte(src), nil
 }
 
-func (c *Contract) typeParams() string { return "" }
+func (c *Contract) typeParams() string { return c.TypeParams }
 
 // sigParams renders receiver, params (and results when post) as a Go parameter list.
 func (c *Contract) sigParams(post bool) string {
